@@ -542,6 +542,26 @@ func c11prop(ev *evid.Rec) func(rt *rapid.T) {
 					d.kids[nn] = n
 					s.retarget(old, "")
 				},
+				"renameAndComment": func(rt *rapid.T) {
+					// one set-file-info request carrying both a comment and a new name
+					s.rt = rt
+					p, n := pickEntry("what", func(n *fnode) bool { return n.kind == "file" && !n.partial && len(n.name) <= 249 })
+					if n == nil {
+						rt.Skip()
+					}
+					d := s.lookup(p)
+					nn := s.genName("newname", d, 244)
+					cm := rapid.SampledFrom([]string{"both at once", "c", strings.Repeat("y", 120)}).Draw(rt, "comment")
+					rec("rename+comment %v/%q -> %q", p, n.name, nn)
+					s.mutate(fmt.Sprintf("rename of %q in %v to %q with a comment", n.name, p, nn), hlref.TranSetFileInfo, append(nameFields(p, n), sfld(hlref.FFileComment, cm), fld(hlref.FFileNewName, macRoman(nn)))...)
+					mutated(n)
+					old := s.modelPath(p, n)
+					delete(d.kids, n.name)
+					n.name = nn
+					d.kids[nn] = n
+					n.hasInfo, n.comment = true, cm
+					s.retarget(old, "")
+				},
 				"move": func(rt *rapid.T) {
 					s.rt = rt
 					p, n := pickEntry("what", func(n *fnode) bool { return n.kind == "dir" || (n.kind == "file" && !n.partial) })
